@@ -348,6 +348,29 @@ class P:
             finally:
                 self.baton = None
             return
+        if getattr(self, 'raw_threads', False):
+            # threads that the `threading` module did not start (as a C extension or a GUI toolkit starts them):
+            # _thread.start_new_thread, joined through locks
+            import _thread
+            done = [_thread.allocate_lock() for _ in range(n)]
+            for lk in done:
+                lk.acquire()
+
+            def runner(k):
+                # what threading.Thread does for its threads: the recorder of phase A (threading.settrace) is
+                # installed here too
+                hook = getattr(threading, '_trace_hook', None)
+                if hook is not None:
+                    sys.settrace(hook)
+                try:
+                    work(k)
+                finally:
+                    done[k].release()
+            for k in range(n):
+                _thread.start_new_thread(runner, (k,))
+            for lk in done:
+                lk.acquire()
+            return
         ts = [threading.Thread(target=work, args=(k,)) for k in range(n)]
         for t in ts:
             t.start()
@@ -425,6 +448,7 @@ def run_program(prog, root, lib, k):
         h = P(phase, rec, prof, ns, lib, snaps)
         h.root, h.k = root, k
         h.sched = prog.get('sched')
+        h.raw_threads = 'rawthreads' in (prog.get('features') or [])
         ns['A'] = h.adv
         ns['PROF'] = prof
         ns['SNAP'] = h.snap
